@@ -46,7 +46,7 @@ Verdict(x) ==
     ELSE LET nominal == Geom(x, x.g.Lin, x.g.Lout, 0)
              ascode  == Geom(x, x.code.Lin, x.code.Lout, 1)
              f == HFailed(nominal, x.calls)
-             okc == {k \in DOMAIN x.calls : x.calls[k].ok}
+             okc == {k \in DOMAIN x.calls : x.calls[k].ok /\ x.calls[k].kind # "other"}
              n == Len(x.calls)
              vs == Views(x.calls)
          IN [id |-> x.id,
